@@ -93,4 +93,10 @@ Classify(l) ==
        ELSE IF CmpNat(m, P64) < 0 THEN "uint"
        ELSE "floatOverflowedInt"
 
+\* canonical decimal text of an integer literal ("-0" is 0)
+CanonInt(lit) ==
+  LET m == Strip0(IntDigits(lit))
+      d == [i \in 1..Len(m) |-> m[i] + 48]
+  IN IF m = <<>> THEN <<48>> ELSE IF IsNeg(lit) THEN <<MINUS>> \o d ELSE d
+
 =============================================================================
